@@ -186,11 +186,10 @@ func TestC17ExistenceCacheSetExclusion(t *testing.T) {
 			set.hook = nil
 			set.mu.Unlock()
 			if started && !joined {
-				select {
-				case workerPanic = <-done:
-				case <-time.After(20 * time.Second):
-					t.Fatalf("a second client's ExistenceCache.Add did not return within 20 s after the call it overlapped with had returned (lock not released?)")
-				}
+				// (No wall-clock verdict: if the second client never returns
+				// - lock not released - the unit hangs and the driver reports
+				// the run as inconclusive.)
+				workerPanic = <-done
 			}
 			if started {
 				overlaps++
